@@ -53,6 +53,25 @@ type Compiled struct {
 	NoDrain bool
 	// KeyOf: the configuration's name -> key assignment, handed to every Env
 	KeyOf func(name string) int16
+	// constAggr: printed form of every list/set constant as it was configured
+	constAggr map[string]string
+}
+
+func isAggregate(t string) bool {
+	switch t {
+	case "il", "sl", "is", "ss", "[]int", "[]int32":
+		return true
+	}
+	return false
+}
+
+func mutatingOps(ops map[string]*OpSpec) bool {
+	for _, o := range ops {
+		if o.Mutates {
+			return true
+		}
+	}
+	return false
 }
 
 // CompileWorld compiles prog under the world's configuration with the given
@@ -76,6 +95,16 @@ func CompileSpec(cfg *CfgSpec, prog *Node, mask int, viaDirective bool, compileE
 		c.Expr, err = eval.Compile(cc, src)
 	}()
 	host.CompileEnv = nil
+	if c.Expr != nil && !mutatingOps(host.Specs) {
+		for name, v := range cfg.Consts {
+			if isAggregate(v.T) {
+				if c.constAggr == nil {
+					c.constAggr = map[string]string{}
+				}
+				c.constAggr[name] = ValStr(v.Go())
+			}
+		}
+	}
 	if c.Expr != nil && cfg.Event != "" {
 		// The program is fixed by Compile: what Dump/DumpTable show must not
 		// depend on whether the event channel has been attached yet, nor on
@@ -168,6 +197,22 @@ func (c *Compiled) RunCtx(ctx *eval.Ctx, env *Env, kind string) (o Outcome) {
 		if env.KeyMismatch != "" && o.Panic == nil {
 			o.Panic = "the engine addressed the fetcher inconsistently: " + env.KeyMismatch
 			o.Stack = ""
+		}
+		// values the caller owns (lists and sets bound to variables or stored in
+		// the ConstantMap) are the caller's: reading them must not change them
+		if o.Panic == nil && env.Plan != nil && !mutatingOps(env.Ops) {
+			for name, v := range env.Plan.Bind {
+				if isAggregate(v.T) && !ValEq(env.bind[name], v.Go()) {
+					o.Panic = fmt.Sprintf("the library changed the caller's value bound to %s: it was %s, after the call it is %s", name, ValStr(v.Go()), ValStr(env.bind[name]))
+					o.Stack = ""
+				}
+			}
+			for name, was := range c.constAggr {
+				if now := ValStr(c.Conf.ConstantMap[name]); now != was && o.Panic == nil {
+					o.Panic = fmt.Sprintf("the library changed the caller's ConstantMap entry %s: it was %s, after the call it is %s", name, was, now)
+					o.Stack = ""
+				}
+			}
 		}
 	}()
 	defer func() {
